@@ -679,9 +679,15 @@ class TextXVisitor(RRELVisitor):
                 return
 
             if isinstance(rule, OrderedChoice):
+                # Each branch continues from the assignments seen before
+                # the choice. What follows the choice sees the assignments
+                # of all branches.
+                seen_in_branches = set()
                 for on in rule.nodes:
-                    oc_branch_set = set()
-                    _update_attr_multiplicities(on, oc_branch_set, mult)
+                    branch_set = set(oc_branch_set)
+                    _update_attr_multiplicities(on, branch_set, mult)
+                    seen_in_branches.update(branch_set)
+                oc_branch_set.update(seen_in_branches)
             else:
                 if isinstance(rule, OneOrMore):
                     mult = MULT_ONEORMORE
